@@ -25,7 +25,7 @@ RULE += " Additions: undecorated base class annotating member names in another o
 ASSUMPTIONS = ["key subsets are exhaustive per layout; layouts and the wire value chosen for a present key are random",
                "field types are drawn from a 10-entry typed pool with known conversions"]
 BUDGET_S = {"quick": 120, "thorough": 900}
-MIN_EVENTS = {"quick": {"evaluations": 20000, "agree_instance": 5000, "agree_missing": 2000, "factory_pairs_checked": 500},
+MIN_EVENTS = {"quick": {"evaluations": 20000, "agree_instance": 5000, "agree_missing": 2000, "factory_pairs_checked": 500, "alignment_agree": 100},
               "thorough": {"evaluations": 600000, "agree_instance": 150000, "agree_missing": 60000, "factory_pairs_checked": 15000}}
 
 D = datetime.date
@@ -151,10 +151,68 @@ def render_level(fields):
     return lines
 
 
+def alignment_case(rng, tier, rec):
+    """which constructor parameter a value reaches: an undecorated base annotating the member names in ANOTHER order (typing lists
+    its annotations first, dataclasses ignore it) together with a subclass that re-annotates inherited members without a value
+    (they keep their inherited position among the parameters).  Every member has its own type and wire value, so a value that
+    reaches the wrong parameter - or one passed twice - shows."""
+    from mashumaro.codecs.basic import BasicDecoder
+    fam = Family("c07")
+    try:
+        kinds = [("int", 7, 7), ("datetime.date", "2020-01-02", D(2020, 1, 2)), ("str", "s", "s"), ("float", 1.5, 1.5), ("bool", True, True), ("uuid.UUID", "00000000-0000-0000-0000-000000000001", __import__("uuid").UUID(int=1))]
+        rng.shuffle(kinds)
+        nb, nc = rng.randint(2, 3), rng.randint(1, 2)
+        bnames = [f"b{i}" for i in range(nb)]
+        cnames = [f"c{i}" for i in range(nc)]
+        ktype = dict(zip(bnames + cnames, kinds))
+        znames = bnames + cnames
+        rng.shuffle(znames)
+        znames = znames[:rng.randint(2, len(znames))]
+        bare = rng.sample(bnames, rng.randint(1, len(bnames)))
+        zwhere = rng.choice(["B", "C"])
+        mixin = rng.random() < 0.7
+        lazy = rng.random() < 0.15
+        bases_b = ", ".join(x for x in ("Z" if zwhere == "B" else "", "DataClassDictMixin" if mixin else "") if x)
+        src = "class Z:\n" + "".join(f"    {n}: Any\n" for n in znames)
+        src += "@dataclass\nclass B" + (f"({bases_b})" if bases_b else "") + ":\n" + "".join(f"    {n}: {ktype[n][0]}\n" for n in bnames)
+        src += "@dataclass\nclass C(" + ("B, Z" if zwhere == "C" else "B") + "):\n"
+        body = [f"    {n}: {ktype[n][0]}\n" for n in cnames] + [f"    {n}: {ktype[n][0]}\n" for n in bare]
+        rng.shuffle(body)
+        src += "".join(body) + ("    class Config(BaseConfig):\n        lazy_compilation = True\n" if lazy else "")
+        facts = {"scenario": "alignment", "undecorated_base": True, "bare_reannotation": True, "z_on": zwhere}
+        try:
+            fam.exec_src(src)
+        except TypeError:
+            rec.count("layout_rejected_by_dataclasses")
+            return
+        m = fam.module
+        doc = {n: ktype[n][1] for n in bnames + cnames}
+        want = {n: ktype[n][2] for n in bnames + cnames}
+        routes = [("codec", lambda: BasicDecoder(m.C).decode(dict(doc)))] + ([("mixin", lambda: m.C.from_dict(dict(doc)))] if mixin else [])
+        for name, fn in routes:
+            rec.evaluation()
+            try:
+                got = fn()
+            except Exception as e:
+                rec.violation(f"exception:{type(e).__name__}", {"source": src, "input": common.short(doc), "error": f"{type(e).__name__}: {e}"[:300], "route": name}, facts)
+                continue
+            bad = {n: repr(getattr(got, n, None))[:40] for n in want if getattr(got, n, None) != want[n] or type(getattr(got, n, None)) is not type(want[n])}
+            if bad:
+                rec.violation("field-differs-from-converted-input", {"source": src, "input": common.short(doc), "wrong_members": bad, "route": name}, facts)
+            else:
+                rec.count("agree_instance")
+                rec.count("alignment_agree")
+                rec.nontrivial(("alignment", tuple(znames), tuple(bare), zwhere, name, lazy))
+    finally:
+        fam.dispose()
+
+
 def run_case(seed, tier, rec, st):
     from mashumaro.codecs.basic import BasicDecoder
     from mashumaro.exceptions import MissingField
     rng = random.Random(seed)
+    if rng.random() < 0.03:
+        return alignment_case(rng, tier, rec)
     fam = Family("c07", future_annotations=rng.random() < 0.1)
     try:
         counter = [rng.randint(1, 50)]
@@ -218,7 +276,8 @@ def run_case(seed, tier, rec, st):
         # an UNDECORATED base class that merely annotates some of the member names, in another order: typing lists its
         # annotations first, dataclasses ignore it - the field table (order of constructor parameters) is the dataclasses'
         zbase = None
-        if not diamond and "slots" not in dc_args and rng.random() < 0.2:
+        # (more often next to a bare re-annotation: the two together decide which values may be passed positionally)
+        if not diamond and "slots" not in dc_args and rng.random() < (0.6 if any(o.get("bare") for o in overrides) else 0.2):
             znames = [f["name"] for b in bodies for f in b if f["role"] in ("req", "def", "fac", "kwreq", "kwdef")]
             rng.shuffle(znames)
             znames = znames[:rng.randint(1, max(1, len(znames)))]
